@@ -178,6 +178,9 @@ func c12Commands(thorough bool) []c12Cmd {
 		{"text-parse", []string{"text", "parse"}, c12Text1},
 		{"text-conv-syllable", []string{"text", "conv", "syllable", "--key", "E"}, c12Text1},
 		{"text-conv-degree", []string{"text", "conv", "degree"}, c12Text2},
+		// metadata with keys that take a printing path of their own (<<) next to 1..5 ordinary keys
+		{"text-conv-meta-keys", []string{"text", "conv", "degree"}, "1[1]{<<=x,b=1,a=2} 5[1]{<<=y} 4[1]{zz=1,<<=x,mm=2,aa=3,kk=4,bb=5} 1[1]{q=1,p=2}"},
+		{"write-conv-meta-keys", []string{"write", "conv", "-c", "cmt"}, "- chord:\n    degree: \"1\"\n    name: \"7\"\n  values:\n    - \"1\"\n  meta:\n    \"<<\": x\n    b: \"1\"\n    a: \"2\"\n    lic: la\n"},
 		{"write", []string{"write"}, c12Doc1},
 		{"write", []string{"write", "--track", "3", "--key", "F#", "--bpm", "77"}, c12Doc1},
 		{"write-event", []string{"write", "event"}, c12Doc1},
